@@ -76,6 +76,10 @@ void market::update_allotment() {
     int unassigned_workers = max_workers;
     int assigned = 0;
     int carry = 0;
+#if ONETBB_VERIF_SIM
+    // verification hook: the allotment decided below is handed to the simulator (observation only)
+    int verif_n = 0, verif_level[64], verif_min[64], verif_max[64], verif_allot[64];
+#endif
     unsigned max_priority_level = num_priority_levels;
     for (unsigned list_idx = 0; list_idx < num_priority_levels; ++list_idx ) {
         int assigned_per_priority = min(my_priority_level_demand[list_idx], unassigned_workers);
@@ -85,6 +89,9 @@ void market::update_allotment() {
             tbb_permit_manager_client& client = static_cast<tbb_permit_manager_client&>(**it);
             if (client.max_workers() == 0) {
                 client.set_allotment(0);
+#if ONETBB_VERIF_SIM
+                if (verif_n < 64) { verif_level[verif_n] = int(list_idx); verif_min[verif_n] = client.min_workers(); verif_max[verif_n] = 0; verif_allot[verif_n++] = 0; }
+#endif
                 continue;
             }
 
@@ -105,8 +112,14 @@ void market::update_allotment() {
             client.set_allotment(allotted);
             client.set_top_priority(list_idx == max_priority_level);
             assigned += allotted;
+#if ONETBB_VERIF_SIM
+            if (verif_n < 64) { verif_level[verif_n] = int(list_idx); verif_min[verif_n] = client.min_workers(); verif_max[verif_n] = client.max_workers(); verif_allot[verif_n++] = allotted; }
+#endif
         }
     }
+#if ONETBB_VERIF_SIM
+    sim_allotment(my_num_workers_soft_limit, my_mandatory_num_requested, my_total_demand, verif_n, verif_level, verif_min, verif_max, verif_allot);
+#endif
     __TBB_ASSERT(assigned == max_workers, nullptr);
 }
 
